@@ -235,20 +235,31 @@ class FnShape:
         return res
 
     def stmt_end_after(self, idx):
-        """Index just after the `;` that ends the statement containing position idx (depth
-        relative to the innermost enclosing block)."""
+        """Index just after the statement that contains position idx: after its `;`, or after the
+        closing brace of a block-like statement (`if c { .. } else { .. }`, `match`, `while`)."""
         m = self.m
         j = idx
         n = len(m)
         while j < n:
             c = m[j]
-            if c in '([{':
+            if c in '([':
                 j = match_bracket(m, j)
-            elif c in ')]}':
-                # leaving the enclosing bracket: keep going outward until a ';'
-                pass
+            elif c == '{':
+                j = match_bracket(m, j)
+                k = skip_ws(m, j + 1)
+                if m.startswith('else', k):
+                    j = k + 4
+                    continue
+                if k < n and m[k] in '.?':
+                    j = k
+                    continue
+                if k < n and m[k] == ';':
+                    return k + 1
+                return j + 1
             elif c == ';':
                 return j + 1
+            elif c == '}':
+                raise ExtractError('closure is in a tail expression: no statement end to anchor after')
             j += 1
         raise ExtractError('no statement end after %d' % idx)
 
@@ -521,6 +532,12 @@ def transform_fn(text, spec):
     for key, val in spec.get('macros', {}).items():
         for a, o, c in macro_calls(sh, key):
             edits.append((a, c, val))
+
+    # R8 aliases: a fully-qualified spelling is rebound to the stub name (path tokens only)
+    for src, dst in spec.get('aliases', {}).items():
+        for mm in re.finditer(r'(?<![A-Za-z0-9_:])%s(?![A-Za-z0-9_])' % re.escape(src), m):
+            if sh.bopen < mm.start() < sh.bclose or sh.popen < mm.start() < sh.bopen:
+                edits.append((mm.start(), mm.end(), dst))
 
     # R10
     if 'R10' in rules:
